@@ -456,9 +456,11 @@ def run(R):
             return sym(v.right, st)
         return None
     # the configuration path: the enclosing function's local bound to get_path()
-    free_path = [nm for nm, v in unique_defs(rc).items() if isinstance(v, ast.Call) and ast.unparse(v.func) == 'get_path']
+    gp_name = ctx(R, RC + '.<get_path>').f.node.name      # (the function may have been moved / renamed: its current name)
+    free_path = [nm for nm, v in unique_defs(rc).items() if isinstance(v, ast.Call) and ast.unparse(v.func) in ('get_path', gp_name)]
     R.need(len(free_path) == 1, 'the configuration path local (`path = get_path()`) was not found')
-    st0 = tuple(sorted({free_path[0]: 'confpath'}.items()))
+    # (the path of the configuration file: the enclosing function's local, or - when the helper was moved out - its third parameter)
+    st0 = tuple(sorted({(rl_params[2] if len(rl_params) >= 3 else free_path[0]): 'confpath'}.items()))
     rets = returns(rl)
     n_val = 0
     for (C, L) in ((True, True), (True, False), (False, False)):
